@@ -112,16 +112,19 @@ def resume_split(g, level, j, tmpdir):
         first.append(mc.next_guess())
     fn = os.path.join(tmpdir, 'x.omn')
     mc.save_session(fn)
-    mc2 = MarkovCracker(g, 1, new_optimizer())
-    mc2.load_session(fn, {'pt': [['M', 1, 1]]})
     rest = []
-    while True:
-        s = mc2.next_guess()
-        if s is None:
-            break
-        rest.append(s)
-        if len(rest) > 100000:
-            break
+    try:
+        mc2 = MarkovCracker(g, 1, new_optimizer())
+        mc2.load_session(fn, {'pt': [['M', 1, 1]]})
+        while True:
+            s = mc2.next_guess()
+            if s is None:
+                break
+            rest.append(s)
+            if len(rest) > 100000:
+                break
+    except Exception:
+        return first, None          # the code raised while resuming: the remainder was not produced
     return first, rest
 
 
